@@ -118,6 +118,17 @@ func (n *node) GetNodeNamespace(
 	return m.Ns()
 }
 
+// What is written in a submodule belongs to the module the submodule
+// belongs to (the name of the submodule is GetNodeSubmoduleName's).
+func moduleNameOfRoot(r Node) string {
+	if r.Type() == NodeSubmodule {
+		if b := r.ChildByType(NodeBelongsTo); b != nil {
+			return b.Name()
+		}
+	}
+	return r.Name()
+}
+
 // Get the correct module name for a node.
 // Nodes defined in a group, have a second root associated with them
 // called UsesRoot. UsesRoot will be nil for any other node.
@@ -129,10 +140,10 @@ func getNodeModulenameInternal(n Node) (string, error) {
 	if n.UsesRoot() != nil {
 		// Return module name of where node is used, as this was
 		// originally from a grouping
-		return n.UsesRoot().Name(), nil
+		return moduleNameOfRoot(n.UsesRoot()), nil
 	} else if n.Root() != nil {
 		// Return module name in which node was defined.
-		return n.Root().Name(), nil
+		return moduleNameOfRoot(n.Root()), nil
 	}
 	return "", fmt.Errorf("Unable to get module name for %s.", n.Name())
 }
